@@ -72,6 +72,10 @@ func lit(e ast.Expr) string {
 		return lit(v.X) + "[" + lo + ":" + hi + "]"
 	case *ast.IndexExpr:
 		return lit(v.X) + "[" + lit(v.Index) + "]"
+	case *ast.TypeAssertExpr:
+		return lit(v.X) + ".(" + lit(v.Type) + ")"
+	case *ast.ParenExpr:
+		return "(" + lit(v.X) + ")"
 
 	case *ast.BinaryExpr:
 		return lit(v.X) + v.Op.String() + lit(v.Y)
